@@ -355,6 +355,138 @@ func (g *gen) syncSuffix(maxFires int, byzKeepsGoing bool) {
 	g.do("end")
 }
 
+// ---- synchronous suffix with adversarial delivery ORDER ----
+//
+// Everything is still delivered before any timeout fires (closure runs before every timeout), but
+// the generator hands the messages out itself first, in an unlucky order for one node X: the other
+// nodes are served first and completely; X gets precommits before prevotes (and, in the late-block
+// variant, all votes before the proposal and its block). A faulty validator keeps helping the others
+// to their polka, sends a nil precommit and never precommits the block, so that every correct
+// precommit is needed for the decision.
+
+func (g *gen) byzHelpsPolkaWithholdsPrecommit(v int, done map[int]bool) {
+	for _, m := range g.nt.log {
+		if m.kind == "prop" && !done[m.r] && m.r <= g.maxRound() {
+			done[m.r] = true
+			g.byzVote("pv", m.r, m.b, v)
+			g.byzVote("pc", m.r, -1, v)
+			return
+		}
+	}
+}
+
+func (g *gen) nextFor(i int, rank func(m *msg) int) int {
+	best, bestRank := -1, -1
+	s := g.nt.nodes[i]
+	if !s.live() {
+		return -1
+	}
+	cur := int(s.node.RS().Round)
+	for k, m := range g.nt.log {
+		if g.seen[i][k] || (m.kind != "block" && m.by == g.idx(i)) {
+			continue
+		}
+		if m.kind == "prop" && m.r > cur {
+			continue // it will be taken when the node is in that round (closure hands it out again)
+		}
+		rk := 0
+		if rank != nil {
+			rk = rank(m)
+		}
+		if rk > bestRank {
+			best, bestRank = k, rk
+		}
+	}
+	return best
+}
+
+func (g *gen) orderedClosure(X int, lateBlock bool, byz int, byzDone map[int]bool) {
+	rank := func(m *msg) int {
+		switch {
+		case m.kind == "vote" && m.t == "pc":
+			return 3
+		case m.kind == "vote":
+			return 2
+		case lateBlock:
+			return 1
+		default:
+			return 4
+		}
+	}
+	for steps := 0; steps < 600; steps++ {
+		if byz >= 0 {
+			g.byzHelpsPolkaWithholdsPrecommit(byz, byzDone)
+		}
+		served := false
+		for i := range g.nt.nodes {
+			if i == X {
+				continue
+			}
+			if k := g.nextFor(i, nil); k >= 0 {
+				g.dl(i, k)
+				served = true
+				break
+			}
+		}
+		if served {
+			continue
+		}
+		if k := g.nextFor(X, rank); k >= 0 {
+			g.dl(X, k)
+			continue
+		}
+		break
+	}
+	g.do("closure")
+}
+
+// precommits overtaking prevotes at one node / the block arriving after all votes, every round,
+// with a faulty voter that withholds its block precommit
+func genUnluckyOrder(r *rand.Rand) core.Case {
+	w := getWorld([]int64{1, 1, 1, 1}, nil, 0)
+	byz := r.Intn(4)
+	g := newGen(r, w, complement(4, []int{byz}))
+	X := r.Intn(3)
+	lateBlock := r.Intn(2) == 0
+	for i := range g.nt.nodes {
+		g.fire(i)
+	}
+	if r.Intn(3) == 0 {
+		g.randomPrefix(5 + r.Intn(25))
+	}
+	g.do("sync")
+	start := g.maxRound()
+	done := map[int]bool{}
+	sawWaitBeforePrecommit := false
+	for f := 0; f < 80; f++ {
+		g.orderedClosure(X, lateBlock, byz, done)
+		if s := g.nt.nodes[X]; s.live() && s.node.RS().TriggeredTimeoutPrecommit {
+			sawWaitBeforePrecommit = true
+		}
+		if g.allDone() || g.maxRound() > start+8 {
+			break
+		}
+		var pend []int
+		for i, s := range g.nt.nodes {
+			if s.live() && s.tick.pending && g.nt.due(i) {
+				pend = append(pend, i)
+			}
+		}
+		if len(pend) == 0 {
+			break
+		}
+		g.fire(pend[g.r.Intn(len(pend))])
+	}
+	if sawWaitBeforePrecommit {
+		stat("precommit-wait-entered-at-unlucky-node")
+	}
+	if !g.nt.closed {
+		g.do("closure")
+	}
+	g.do("end")
+	return g.finish("unlucky-order")
+}
+
 func (g *gen) finish(kind string) core.Case {
 	g.nt.close()
 	return core.Case{Kind: kind, Ops: g.ops}
